@@ -317,16 +317,20 @@ func (o *Oracle) checkVerify(c *Call, inc *Inc) {
 			break
 		}
 	}
-	// acknowledgements delivered to the caller inside the window, per responder
-	ackAny := map[int]bool{}   // successful response delivered inside the window
-	ackFresh := map[int]bool{} // ... to a request that was handled inside the window
+	// acknowledgements delivered to the caller inside the window, per term and responder. The call
+	// can wait in the server's queue while it is still a candidate of term T and be served by the
+	// same incarnation as leader of a later term: the acknowledgements that justify it are those of
+	// one leadership term >= T.
+	type ackSet struct{ any, fresh map[int]bool }
+	byTerm := map[uint64]*ackSet{}
+	var terms []uint64
 	horizon := c.InvokeAt - 6*w.cfg.TransportTimeout - time.Second
 	for i := len(w.net.msgs) - 1; i >= 0; i-- {
 		m := w.net.msgs[i]
 		if m.SentAt < horizon {
 			break // too old to have been answered inside the window
 		}
-		if m.SentSeq > c.ReturnSeq || m.Src != inc.node.idx || m.SrcInc != inc.n || m.RespSeq == 0 || m.RespSeq > c.ReturnSeq || m.RespSeq < c.InvokeSeq || m.Term != T {
+		if m.SentSeq > c.ReturnSeq || m.Src != inc.node.idx || m.SrcInc != inc.n || m.RespSeq == 0 || m.RespSeq > c.ReturnSeq || m.RespSeq < c.InvokeSeq || m.Term < T {
 			continue
 		}
 		ok := false
@@ -339,11 +343,22 @@ func (o *Oracle) checkVerify(c *Call, inc *Inc) {
 		if !ok {
 			continue
 		}
-		ackAny[m.Dst] = true
+		as := byTerm[m.Term]
+		if as == nil {
+			as = &ackSet{any: map[int]bool{}, fresh: map[int]bool{}}
+			byTerm[m.Term] = as
+			terms = append(terms, m.Term)
+		}
+		as.any[m.Dst] = true
 		if m.DelivSeq >= c.InvokeSeq {
-			ackFresh[m.Dst] = true
+			as.fresh[m.Dst] = true
 		}
 	}
+	if len(terms) == 0 {
+		byTerm[T] = &ackSet{any: map[int]bool{}, fresh: map[int]bool{}}
+		terms = append(terms, T)
+	}
+	sort.Slice(terms, func(i, j int) bool { return terms[i] < terms[j] })
 	// the configuration may change while the call is outstanding: the call is justified if
 	// the condition holds under any configuration the server had during the window
 	count := func(cfg raft.Configuration, acks map[int]bool) (have, quorum int, nonVoterAck bool) {
@@ -378,17 +393,29 @@ func (o *Oracle) checkVerify(c *Call, inc *Inc) {
 	okAny, okFresh := false, false
 	var detail string
 	nonVoter := false
-	for _, cfg := range cfgs {
-		ha, q, nv := count(cfg, ackAny)
-		hf, _, _ := count(cfg, ackFresh)
-		nonVoter = nonVoter || nv
-		if ha >= q {
-			okAny = true
+	for _, t := range terms {
+		as := byTerm[t]
+		for _, cfg := range cfgs {
+			ha, q, nv := count(cfg, as.any)
+			hf, _, _ := count(cfg, as.fresh)
+			nonVoter = nonVoter || nv
+			if ha >= q {
+				okAny = true
+			}
+			if hf >= q {
+				okFresh = true
+			}
+			detail += fmt.Sprintf("term %d cfg{%s}: %d acknowledged inside the call (self included), %d of them to requests handled inside the call, quorum %d; ", t, idsOf(cfg), ha, hf, q)
 		}
-		if hf >= q {
-			okFresh = true
+	}
+	if !okAny && w.debug != nil {
+		fmt.Fprintf(w.debug, "   C09 call invoke=%d return=%d termAt=%d\n", c.InvokeSeq, c.ReturnSeq, T)
+		for i := len(w.net.msgs) - 1; i >= 0 && i > len(w.net.msgs)-400; i-- {
+			m := w.net.msgs[i]
+			if m.Src == inc.node.idx && m.SentSeq > c.InvokeSeq-200 {
+				fmt.Fprintf(w.debug, "   C09 msg %s ->s%d term=%d sent=%d deliv=%d hand=%d resp=%d fate=%s err=%q resp=%+v\n", m.Kind, m.Dst, m.Term, m.SentSeq, m.DelivSeq, m.HandSeq, m.RespSeq, m.Fate, m.RespErr, m.Resp)
+			}
 		}
-		detail += fmt.Sprintf("cfg{%s}: %d acknowledged (self included), %d after the call, quorum %d; ", idsOf(cfg), ha, hf, q)
 	}
 	if !okAny {
 		v := w.violate("C09", "C09/nonvoter-counted", "%s: VerifyLeader succeeded without a voter quorum acknowledging inside the call: %snon-voter acknowledgements in the window: %v", inc.tag, detail, nonVoter)
@@ -452,7 +479,7 @@ func (o *Oracle) checkConvergence() {
 		v.Facts["server_holds_uncommitted_config_without_its_own_vote"] = fmt.Sprint(stuck)
 		// a voter of the newest configuration that still holds an older configuration without
 		// the candidates refuses them its vote ("node is not in configuration")
-		excl := false
+		excl, exclNV := false, false
 		for _, c := range w.liveIncs() {
 			_, _, clatest, _ := c.r.VerifConfigurations()
 			if !isVoter(clatest, c.node.id) {
@@ -473,9 +500,13 @@ func (o *Oracle) checkConvergence() {
 				if len(vlatest.Servers) > 0 && !in {
 					excl = true
 				}
+				if len(vlatest.Servers) > 0 && in && !isVoter(vlatest, c.node.id) {
+					exclNV = true // the stale configuration knows the candidate, but as a non-voter: same refusal
+				}
 			}
 		}
 		v.Facts["a_voter_holds_an_older_configuration_without_the_candidate"] = fmt.Sprint(excl)
+		v.Facts["a_voter_holds_an_older_configuration_with_the_candidate_as_non_voter"] = fmt.Sprint(exclNV)
 		w.ended = true
 	}
 }
